@@ -34,7 +34,8 @@
 (***************************************************************************)
 EXTENDS Integers, Sequences, FiniteSets, TLC
 
-CONSTANTS MaxFields,     \* class definitions of 1..MaxFields fields
+CONSTANTS CtxUpTo,       \* class definitions of up to this many fields are enumerated in every definition context
+          MaxFields,     \* class definitions of 1..MaxFields fields
           SeqUpTo        \* up to this many fields every ORDER of descriptors is enumerated, above only sorted ones
                          \* (no clause of the contract depends on the order of the fields)
 
@@ -88,13 +89,23 @@ CodeDeviates(f) == \/ CodePresent(f) = "RAISES"
 Deviations == {f \in Descs : CodeDeviates(f)}
 
 (* ------------------------------------------------------------------ enumeration: one TLC state per class definition *)
-VARIABLE cls
+(* HOW and WHEN the class was defined / used does not enter the contract: ToDict depends on the class's own declared *)
+(* defaults and on the object's values only.  The contexts are enumerated so that every definition is exercised as   *)
+(*   "plain"          a stand-alone class, first use,                                                                *)
+(*   "repeat"         after another object of the same class (other values) was converted,                          *)
+(*   "sub-inherit"    a subclass that inherits the parent's fields, after a parent object was converted,             *)
+(*   "sub-redeclare"  a subclass that re-declares the fields with its own defaults, after an object of the parent    *)
+(*                    (same fields, other declared defaults) was converted,                                          *)
+(*   "any"            one of the above, chosen by the harness.                                                       *)
+Contexts == {"plain", "repeat", "sub-inherit", "sub-redeclare"}
+VARIABLES cls, ctx
 RECURSIVE SortedSeqs(_)
 SortedSeqs(n) == IF n = 0 THEN {<<>>}
                  ELSE UNION {{Append(s, f) : f \in {g \in Descs : s = <<>> \/ Code(s[Len(s)]) <= Code(g)}} : s \in SortedSeqs(n - 1)}
-Init == cls \in UNION {[1..n -> Descs] : n \in 1..SeqUpTo} \cup UNION {SortedSeqs(n) : n \in (SeqUpTo + 1)..MaxFields}
-Next == UNCHANGED cls
-Spec == Init /\ [][Next]_cls
+Init == /\ cls \in UNION {[1..n -> Descs] : n \in 1..SeqUpTo} \cup UNION {SortedSeqs(n) : n \in (SeqUpTo + 1)..MaxFields}
+        /\ ctx \in IF Len(cls) <= CtxUpTo THEN Contexts ELSE {"any"}
+Next == UNCHANGED <<cls, ctx>>
+Spec == Init /\ [][Next]_<<cls, ctx>>
 
 (* THEOREM of the contract: it is satisfiable for every class and every allowed dictionary rebuilds the object *)
 Satisfiable == ToDict(cls) # {}
